@@ -52,7 +52,25 @@ func runReplays(propID string, reqs []replayReq) []replayRes {
 	os.MkdirAll(dir, 0o755)
 	// write files
 	for i, q := range reqs {
-		rf := ReplayFile{Entry: q.job.Entry, Kind: q.kind, Label: q.label, Model: q.model, Strings: q.strs, Flags: q.job.Flags, Tries: q.tries, Dir: q.job.Dir, Harness: q.job.Harness, Observe: q.obs, Prop: propID}
+		entry := q.job.Entry
+		if q.job.ReplayEntry != "" {
+			entry = q.job.ReplayEntry
+		}
+		// concrete strings supplied by a string-solver model: "str:<var>" -> id + string table
+		if q.strs == nil {
+			q.strs = map[string]string{}
+		}
+		n := 0
+		for k, v := range q.model {
+			if strings.HasPrefix(k, "str:") {
+				n++
+				id := 800000 + n
+				delete(q.model, k)
+				q.model[k[4:]] = fmt.Sprintf("#x%08x", id)
+				q.strs[fmt.Sprint(id)] = v
+			}
+		}
+		rf := ReplayFile{Entry: entry, Kind: q.kind, Label: q.label, Model: q.model, Strings: q.strs, Flags: q.job.Flags, Tries: q.tries, Dir: q.job.Dir, Harness: q.job.Harness, Observe: q.obs, Prop: propID}
 		b, _ := json.MarshalIndent(rf, "", " ")
 		name := fmt.Sprintf("%s-%s-%s.json", q.job.key(), q.kind, shortHash(q.kind+q.label+string(b)))
 		out[i].path = filepath.Join(dir, name)
@@ -70,7 +88,7 @@ func runReplays(propID string, reqs []replayReq) []replayRes {
 			continue
 		}
 		if q.kind == "witness" {
-			k := q.job.Dir + "|" + q.job.Harness
+			k := q.job.Dir + "|" + q.job.Harness + "|" + buildTags(q.job.Flags)
 			g := wit[k]
 			if g == nil {
 				g = &group{dir: q.job.Dir, harness: q.job.Harness}
@@ -224,6 +242,15 @@ func inStack(st []string, f string) bool {
 }
 
 func nativeReplayOpt(dir, harness string, paths []string, race bool) (map[string]nativeOut, string) {
+	tags := "verif"
+	for _, pth := range paths {
+		if b, err := os.ReadFile(pth); err == nil {
+			var rf ReplayFile
+			if json.Unmarshal(b, &rf) == nil {
+				tags = buildTags(rf.Flags)
+			}
+		}
+	}
 	pkgDir := filepath.Join(repoRoot(), dir)
 	scratch, err := os.MkdirTemp("", "verif.replay.")
 	if err != nil {
@@ -321,7 +348,7 @@ func nativeReplayOpt(dir, harness string, paths []string, race bool) (map[string
 	ob, _ := json.Marshal(map[string]interface{}{"Replace": replace})
 	ovPath := filepath.Join(scratch, "overlay.json")
 	os.WriteFile(ovPath, ob, 0o644)
-	targs := []string{"test", "-tags=verif", "-modfile=" + modfile, "-vet=off", "-count=1", "-timeout=300s", "-run", "^TestVerifReplay$", "-overlay", ovPath, "-v"}
+	targs := []string{"test", "-tags=" + tags, "-modfile=" + modfile, "-vet=off", "-count=1", "-timeout=300s", "-run", "^TestVerifReplay$", "-overlay", ovPath, "-v"}
 	if race {
 		targs = append(targs, "-race")
 	}
